@@ -504,19 +504,54 @@ class Sym:
         if len(rng) != 1:
             raise Unsupported('branching range expression')
         st, r = rng[0]
+        # a loop over an array of known extent whose body does more than test-and-return (it counts, it collects) is
+        # unrolled: element i is r[i]
+        import re as _re
+        m = _re.search(r'\[(\d+)\]\s*$', (s['range'].get('t') or ''))
+        extent = int(m.group(1)) if m else None
+        pristine = st.fork()
         elem = ('elem', r)
         st.env[('v', s['var']['id'])] = elem
         neff = len(st.effects)
         ncond = len(st.conds)
         out = []
         fall = None
-        for s2, sig in self.exec(s['b'], st.fork()):
-            if s2.throw is not None or (sig and sig[0] == 'return'):
-                out.append((s2, sig))
-            else:
-                if len(s2.effects) != neff:
-                    raise Unsupported(f'loop body with effects at line {s.get("ln")}')
-                fall = s2
+        impure = None
+        outer = {k: v for k, v in st.env.items() if isinstance(k, tuple) and k[0] == 'v' and k[1] != s['var']['id']}
+        try:
+            for s2, sig in self.exec(s['b'], st.fork()):
+                if s2.throw is not None or (isinstance(sig, tuple) and sig[0] == 'return'):
+                    out.append((s2, sig))
+                else:
+                    if len(s2.effects) != neff:
+                        raise Unsupported(f'loop body with effects at line {s.get("ln")}')
+                    if any(s2.env.get(k) != v for k, v in outer.items()) or sig in ('break', 'continue'):
+                        raise Unsupported(f'loop body that updates a variable of the enclosing scope at line {s.get("ln")}')
+                    fall = s2
+        except Unsupported as e:
+            if extent is None or extent > 64 or 'loop body' not in str(e):
+                raise
+            impure = e
+        if impure is not None:
+            states = [(pristine, None)]
+            for i in range(extent):
+                nxt = []
+                for s1, sig in states:
+                    if sig is not None or s1.throw is not None:
+                        nxt.append((s1, sig))
+                        continue
+                    s1.env[('v', s['var']['id'])] = ('index', r, ('k', i, 'int'))
+                    for s2, sig2 in self.exec(s['b'], s1):
+                        if sig2 == 'break':
+                            nxt.append((s2, 'loop-exit'))
+                        elif sig2 == 'continue':
+                            nxt.append((s2, None))
+                        else:
+                            nxt.append((s2, sig2))
+                states = nxt
+                if len(states) > self.max_paths:
+                    raise Unsupported('too many paths')
+            return [(s1, None if sig == 'loop-exit' else sig) for s1, sig in states]
         if fall is not None or not out:
             st.conds.append((('noelem', r, s.get('ln')), True))
             out.append((st, None))
@@ -1149,6 +1184,8 @@ class Sym:
             return r
         if name and name.startswith('~') and recv is not None:
             st.effects.append(('dtor', fid, recv))
+        if name == 'destroy_at' and recv is None and len(args) == 1 and callee.get('repo') is False:
+            st.effects.append(('dtor', fid, self.simp(('deref', args[0]))))
         if name in ('operator delete', 'operator delete[]', 'free') and recv is None and args:
             st.effects.append(('release', fid, args[0]))
         target = fid
@@ -1375,6 +1412,11 @@ class Sym:
                     eq = True if a == b else self.same(a, b, st)
                     if eq is not None:
                         return [(st, ('k', int(eq if name == 'operator==' else not eq), 'bool'))]
+            if name in ('size', 'ssize') and recv is None and len(args) == 1:
+                import re as _re
+                m = _re.search(r'\(&\)\[(\d+)\]\)\s*$', callee['id'])
+                if m:
+                    return [(st, ('k', int(m.group(1)), 'int'))]
             if name in ('find_if', 'find_if_not') and recv is None and len(args) == 3:
                 r = self.search_summary(e, callee, args, st, negate=(name == 'find_if_not'))
                 if r is not None:
@@ -1453,8 +1495,26 @@ class Sym:
             raise Unsupported(f'make_node<{targs[0]}> of {callee["parent"]} not instantiated')
         news = [n for n in _walk(mk[0]['body']) if n.get('k') == 'new']
         if len(news) != 1:
-            raise Unsupported('make_node has no unique placement new')
-        init = strip_casts(news[0].get('init') or {})
+            # the payload may be built with std::construct_at: the constructor it selects is in the construct facts
+            cas = [n for n in _walk(mk[0]['body']) if n.get('k') == 'call' and (n.get('callee') or {}).get('name') == 'construct_at']
+            if len(news) == 0 and len(cas) == 1:
+                cf = self.F.constructs.get(fn_qname(cas[0]['callee']['id'])) or self.F.constructs.get(cas[0]['callee'].get('q'))
+                if cf is None:
+                    for c in self.F.constructs.values():
+                        if cas[0]['callee']['id'].startswith(c.get('fn', '?') + '('):
+                            cf = c
+                if cf is None:
+                    raise Unsupported('make_node: no construct fact for its construct_at')
+                if cf.get('copy'):
+                    init = {'k': 'ctor', 'copy': True}
+                elif 'ctor' in cf:
+                    init = {'k': 'ctor', 'callee': {'id': cf['ctor'], 'repo': True, 'parent': T}}
+                else:
+                    raise Unsupported('make_node: aggregate construction of the payload')
+            else:
+                raise Unsupported('make_node has no unique placement new')
+        else:
+            init = strip_casts(news[0].get('init') or {})
         outs = []
         if init.get('k') == 'ctor' and not init.get('copy'):
             o = st.new_obj(T, origin=('tree', recv, key, comp, callee['id']))
@@ -1491,8 +1551,25 @@ def fn_qname(fid):
     return s
 
 
+_OPSYMS = ['<=>', '<<=', '>>=', '->*', '<<', '>>', '<=', '>=', '->', '()', '[]', '==', '!=', '&&', '||', '++', '--', '+=', '-=', '*=', '/=',
+           '%=', '^=', '&=', '|=', '<', '>', '+', '-', '*', '/', '%', '^', '&', '|', '~', '!', '=', ',']
+
+
 def fn_simple(fid):
     """Unqualified name of a function id, template arguments stripped (operator names kept whole)."""
+    q0 = fn_qname(fid)
+    depth = 0
+    for i, ch in enumerate(q0):
+        if depth == 0 and q0.startswith('operator', i) and (i == 0 or q0[i - 2:i] == '::') and i + 8 < len(q0) \
+                and not (q0[i + 8].isalnum() or q0[i + 8] in '_ "'):
+            rest = q0[i + 8:]
+            for sym in _OPSYMS:
+                if rest.startswith(sym):
+                    return 'operator' + sym
+        if ch in '<(' and not q0[:i].endswith('operator'):
+            depth += 1
+        elif ch in '>)' and depth > 0:
+            depth -= 1
     q = fn_qname(fid)
     # cut at the last top-level '::'
     depth = 0
